@@ -5,13 +5,10 @@
 (* is a behaviour of Call (every step enabled, nothing left to call) and   *)
 (* the result equals the specification's built graph.                      *)
 (***************************************************************************)
-EXTENDS FdlHeap, Json, IOUtils
+EXTENDS FdlBuild, Json, IOUtils
 
 Traces == JsonDeserialize(IOEnv.TRACE_FILE)
 VARIABLE i
-
-BuiltKind(k) == IF k = "config" THEN "inst" ELSE k
-Built(h) == [j \in 1..Len(h) |-> Obj(BuiltKind(h[j].k), h[j].fn, h[j].items)]
 
 CallEnabled(h, root, done, o) ==
   /\ o \in ReachableBuildables(h, root)
@@ -19,12 +16,20 @@ CallEnabled(h, root, done, o) ==
   /\ BuildableDeps(h, o) \subseteq done
 
 Failed(t) ==
-  LET h == t.heap  ord == t.order IN
-  IF t.out # "ok" THEN "outcome"
+  LET h == t.heap
+      bi == BuiltIndex(h, 1)
+      \* the recorded order is in built numbering: translate to configuration numbering
+      ord == [n \in 1..Len(t.order) |->
+                IF \E c \in 1..Len(bi) : bi[c] = t.order[n] /\ t.order[n] # 0
+                THEN CHOOSE c \in 1..Len(bi) : bi[c] = t.order[n] ELSE 0]
+  IN
+  IF BuildFails(h, 1) THEN (IF t.out = "ok" THEN "should-fail" ELSE "")
+  ELSE IF t.out # "ok" THEN "outcome"
   ELSE IF \E n \in 1..Len(ord) :
             ~CallEnabled(h, 1, {ord[m] : m \in 1..n - 1}, ord[n]) THEN "call-not-enabled"
   ELSE IF ReachableBuildables(h, 1) # Range(ord) THEN "not-all-called"
-  ELSE IF t.built # Canon(Built(h), 1) THEN "result-graph"
+  ELSE IF t.built # BuiltCanon(h, 1) THEN "result-graph"
+  ELSE IF ~IsRef(BuiltRoot(h, 1)) /\ t.builtroot # BuiltRoot(h, 1) THEN "result-leaf"
   ELSE ""
 
 TInit == i = 0
